@@ -77,6 +77,7 @@ func main() {
 		r.Set("req_worker_recycles", fb.recycled)
 	}
 
+	dumpAll(all)
 	// one violation per signature: the lowest case index (deterministic irrespective of worker timing)
 	seen := map[string]bool{}
 	for _, v := range all {
@@ -130,4 +131,36 @@ func childMain(w *worker) {
 		w.emit(resLine{T: "cap", What: "internal deadline reached in family " + w.fam})
 	}
 	w.end()
+}
+
+// dumpAll writes every (signature, case) pair of this run to $VERIF_WORK/all_violations.jsonl (diagnostics for
+// FINDING.md: the full list of inputs behind each signature; the evidence file keeps only the lowest index).
+func dumpAll(all []pviol) {
+	f, err := os.Create(workDir() + "/all_violations.jsonl")
+	if err != nil {
+		return
+	}
+	defer f.Close()
+	last := ""
+	for _, v := range all {
+		name := ""
+		switch c := v.Replay.(type) {
+		case cfgCase:
+			name = c.Name
+		case *finalReq:
+			name = c.Seed + " | " + c.Listener + " | " + c.Mode + " | " + c.Mutation
+		case map[string]any:
+			if n, ok := c["name"].(string); ok {
+				name = n
+			} else {
+				name = fmt.Sprintf("%v | %v | %v | %v", c["seed"], c["listener"], c["mode"], c["mutation"])
+			}
+		}
+		key := fmt.Sprintf("%s\x00%s\x00%d", v.Sig, v.Fam, v.I)
+		if key == last {
+			continue
+		}
+		last = key
+		fmt.Fprintf(f, "{\"sig\":%q,\"fam\":%q,\"i\":%d,\"name\":%q}\n", v.Sig, v.Fam, v.I, name)
+	}
 }
